@@ -266,6 +266,10 @@ def node(w, hist, cfg, res):
                     res.clause('C09.ro.refuse')
                     if not (isinstance(r, Exc) and r.name == 'ReadOnlyError'):
                         refuse.append((name, repr(r)[:80]))
+                        # (do not go on inside a transaction that should
+                        # not exist: a later request would wait for it)
+                        call(s.tpc_abort, t)
+                        break
                 s.close()
                 after = listing(dd)
                 res.clause('C09.ro.files')
